@@ -57,7 +57,8 @@ Definition class_D31 (long fresh : list string) : bool :=
                           mem_str (cond_head x ^^ "Accepted=False:GatewayIgnored") long in
   (* ... and, as a consequence of the same untracked Service, the entry of a BackendTLSPolicy that targets it (the policy counts as
      referenced only once the backend resolves) *)
-  existsb ignored_parent diff &&
+  negb (match diff with [] => true | _ => false end) &&
+  existsb (fun x => has_suffix "Accepted=False:GatewayIgnored" x && mem_str x long) fresh &&
   forallb (fun x => ignored_parent x || has_prefix "BackendTLSPolicy/" x) diff.
 
 Definition complaints_main (c : case) : list (nat * string) :=
